@@ -94,6 +94,8 @@ def _work(args):
     a_ref = Aut(ref.to_aut_json())
     out["states"] = (a_llg.n, a_ref.n)
     classes = merge_classes([a_llg, a_ref])
+    if case.get("alphabet"):
+        classes = [(b, b) for b in sorted(set(case["alphabet"]))]
     sym = SymString(N)
     c1, s1 = encode_run(a_llg, sym, classes, "l")
     c2, s2 = encode_run(a_ref, sym, classes, "r")
@@ -103,6 +105,9 @@ def _work(args):
     s.set("timeout", 120000)
     s.add(*c1)
     s.add(*c2)
+    if case.get("alphabet"):
+        for b in sym.bytes:
+            s.add(z3.Or(*[b == x for x in case["alphabet"]]))
     diffs = []
     for k in range(N + 1):
         # accepted as complete after k bytes / still a viable prefix after k bytes (reference automaton is trimmed: alive == state != 0)
